@@ -64,44 +64,13 @@ theorem isometry_two_tap (a b : R) (hab : a*a + b*b = 1) (x : List R) (hx : x.le
 
 /-- **The inverse is the transpose** (any even filter length, any even signal length, no condition on the
 filter values): PyWavelets' periodization synthesis with the REVERSED analysis filters is the adjoint of the
-periodization analysis, `⟨x, S(lo,hi)⟩ = ⟨A₀x, lo⟩ + ⟨A₁x, hi⟩` for all `x, lo, hi`. -/
+periodization analysis, `⟨x, S(lo,hi)⟩ = ⟨A₀x, lo⟩ + ⟨A₁x, hi⟩` for all `x, lo, hi` (proved in `Lemmas/Circ.lean`). -/
 theorem per_synthesis_is_transpose (h0 h1 x lo hi : List R) (n : Nat) (hn : 1 ≤ n) (hx : x.length = 2 * n)
     (hlo : lo.length = n) (hL : 2 ≤ h0.length) (hLe : h0.length % 2 = 0) (hh1 : h1.length = h0.length) :
     ∑ u ∈ range (2*n), getN x u * getN (Spec.idwt .periodization h0.reverse h1.reverse lo hi) u
       = ∑ k ∈ range n, getN lo k * getN (Spec.dwt .periodization h0 x) k
-        + ∑ k ∈ range n, getN hi k * getN (Spec.dwt .periodization h1 x) k := by
-  have hodd : ¬ (x.length % 2 = 1) := by omega
-  have hdw : ∀ (h : List R), h.length = h0.length → ∀ k < n,
-      getN (Spec.dwt .periodization h x) k = ∑ j ∈ range h0.length,
-        getN h j * getZ x ((2*(k:Int) + ((h0.length/2 : Nat) : Int) - j) % ((2*n : Nat) : Int)) := by
-    intro h hh k hk
-    simp only [Spec.dwt, hodd, if_false, hh]
-    have : x.length / 2 = n := by omega
-    rw [this, getN_tab, if_pos hk, sumN_eq, hx]
-  have hsplit : ∀ u ∈ range (2*n), getN x u * getN (Spec.idwt .periodization h0.reverse h1.reverse lo hi) u
-      = getN x u * (∑ r ∈ range ((2*n + h0.length - 2) / (2*n) + 1), ∑ k ∈ range n,
-          getN lo k * getZ h0.reverse ((((u + (h0.length/2 - 1)) % (2*n) : Nat) : Int) + (r:Int) * ((2*n : Nat) : Int) - 2 * (k:Int)))
-        + getN x u * (∑ r ∈ range ((2*n + h0.length - 2) / (2*n) + 1), ∑ k ∈ range n,
-          getN hi k * getZ h1.reverse ((((u + (h0.length/2 - 1)) % (2*n) : Nat) : Int) + (r:Int) * ((2*n : Nat) : Int) - 2 * (k:Int))) := by
-    intro u hu
-    have hu' : u < 2 * n := by simpa using hu
-    rw [idwt_per_get h0.reverse h1.reverse lo hi n hn hlo (by simpa using hL) (by simp [hh1]) u hu']
-    simp only [List.length_reverse]
-    rw [← mul_add]
-    congr 1
-    rw [← Finset.sum_add_distrib]
-    apply Finset.sum_congr rfl; intro r _
-    rw [← Finset.sum_add_distrib]
-  rw [Finset.sum_congr rfl hsplit, Finset.sum_add_distrib]
-  have b0 := per_band_adjoint h0 x lo n hn hL hLe
-  have b1 := per_band_adjoint h1 x hi n hn (by omega) (by omega)
-  rw [hh1] at b1
-  rw [b0, b1]
-  congr 1
-  · apply Finset.sum_congr rfl; intro k hk
-    rw [hdw h0 rfl k (by simpa using hk)]
-  · apply Finset.sum_congr rfl; intro k hk
-    rw [hdw h1 hh1 k (by simpa using hk)]
+        + ∑ k ∈ range n, getN hi k * getN (Spec.dwt .periodization h1 x) k :=
+  WV.per_synthesis_is_transpose h0 h1 x lo hi n hn hx hlo hL hLe hh1
 
 /-- **Energy preservation for every orthonormal bank** (any even filter length `L ≥ 2`, any even signal length
 `N ≥ 2`, including `N < L`): if the bank is orthonormal — `PRBank` with the synthesis filters the reversed
